@@ -87,3 +87,27 @@ Proof.
     + cbn. repeat constructor; cbn; intuition discriminate.
     + intros c I. cbn in I. destruct I as [<- | [<- | [<- | []]]]; cbn; repeat constructor; cbn; intuition.
 Qed.
+
+(* two sibling components of stage 0 that both define `chunk` and derive `label` from it (the shape behind which a
+   loader that shares the variable context between the components of a stage hides): used for RemoveCompVar *)
+Definition ex_sib_vars (z : Z) : list (pk * pv) :=
+  [(KS "variables", VDict [(KS "chunk", VInt z); (KS "label", VStr "part-%(chunk)s")])].
+
+Definition ex_wf_sib : wf :=
+  mkWf [("g0", [])]
+       [mkComp 0 "a" [] ["label"] [("chunk", []); ("label", ["chunk"])] (ex_doc "a" 0 [] (ex_sib_vars 4));
+        mkComp 0 "b" [] ["label"; "g0"] [("chunk", []); ("label", ["chunk"]); ("g0", [])] (ex_doc "b" 0 [] (ex_sib_vars 8));
+        mkComp 1 "c" [(0%N, "a"); (0%N, "b")] [] [] (ex_doc "c" 1 ["stage0.a:ref"; "stage0.b:ref"] [])].
+
+Lemma ex_remove_comp_var_applicable :
+  applicable component_full (RemoveCompVar 0 "chunk") ex_wf_sib /\
+  applicable component_full (RemoveCompVar 1 "chunk") ex_wf_sib /\
+  applicable component_full (RemoveCompVar 0 "label") ex_wf_sib.
+Proof.
+  split; [|split].
+  - eexists. split; [reflexivity|]. split; [cbn; intros [E | []]; discriminate|].
+    right. exists "label", ["chunk"]. cbn. auto.
+  - eexists. split; [reflexivity|]. split; [cbn; intros [E | []]; discriminate|].
+    right. exists "label", ["chunk"]. cbn. auto.
+  - eexists. split; [reflexivity|]. split; [cbn; intros [E | []]; discriminate|]. left. cbn. auto.
+Qed.
